@@ -3,11 +3,16 @@ open Conv
 (* ---- repl: (repl <page-size> <script> (<observed trace>)) -> (accepted (logs n) (delivered-all|not-delivered)) | (rejected "why")
    Trace acceptance for C33: the trace observed on the real Manager/PipelineHandler (one global
    linearisation of the effects on storage / exporter plus begin/end of manager calls, ids as ranks)
-   is mapped event by event onto the automaton of Repl/Model.v; every model step must be enabled
-   and must emit exactly the observed data.  The only silent step, Handoff, is taken eagerly
-   (Model.repl_settle; sound and complete, see Model.v). Stop/reset/restart are mapped with the
-   request at the beginning of the manager call and the Halt at its (clear) / end record: the
-   handler events observed in between are exactly those the model allows while a stop is pending. *)
+   is mapped event by event onto the automaton of Repl/Model.v (the repaired code: stopPipeline waits
+   for the persister); every model step must be enabled and must emit exactly the observed data.
+   The only silent step, Handoff, is taken eagerly (Model.repl_settle; sound and complete, see
+   Model.v).  Stop/reset/restart: the request is placed at the beginning of the manager call, Run's
+   return (Halt) as late as possible (just before the operation completes: the handler steps observed
+   in between are exactly those the model allows while a stop is pending), the completion (StopDone)
+   at the (clear) / end record.  One observation is ambiguous while a stop is pending: an
+   acknowledged batch equal to the handler's current page is either that handler's push (its id is
+   then handed over and stored before the stop completes) or the page of the un-awaited Accept
+   goroutine after Run already returned (never stored); both are tried (depth-first). *)
 exception Reject of string
 
 let zi n = coqz_of_z (BigZ.of_int n)
@@ -15,107 +20,140 @@ let iz z = BigZ.to_int (z_of_coqz z)
 let ints l = List.map (fun x -> int_of_string (atom x)) l
 let rec range a b = if a > b then [] else a :: range (a + 1) b
 
-let () = register "repl" (fun c ->
-  match c with
+type ctx = { s : Model.state; spawned : bool; cleared : bool }
+
+let view c =
+  let (((lg, cu), st), ((h, pe), m)), (la, lc) = Model.repl_view c.s in
+  (iz lg, iz cu, iz st, h, pe, m, la, lc)
+let settle c = { c with s = Model.repl_settle c.s }
+let apply what c e =
+  let (s', outs) = Model.repl_step c.s e in
+  if List.exists (function Model.ORefused -> true | _ -> false) outs then
+    raise (Reject (what ^ ": not enabled in the model state"));
+  ({ c with s = s' }, outs)
+let app what c e = fst (apply what c e)
+
+let page_matches c ids = match view c with
+  | (_, cu, _, Model.HPush hi, _, _, _, _) -> ids = range (cu + 1) (iz hi)
+  | _ -> false
+let find_lacc c ids =
+  let (_, _, _, _, _, _, _, lc) = view c in
+  let rec go k = function
+    | [] -> None
+    | (c0, hi) :: tl -> if ids = range (iz c0 + 1) (iz hi) then Some k else go (k + 1) tl in
+  go 0 lc
+
+(* the stop in progress completes: Run returns if it has not yet, the persister must hold nothing *)
+let complete what c =
+  let c = settle c in
+  let (_, _, _, h, _, _, _, _) = view c in
+  let c = if h = Model.HDrain then c else app (what ^ " (Run returns)") c Model.Halt in
+  app (what ^ " (the stopped handler's persister must have stored what it held)") c Model.StopDone
+
+(* successor contexts, as thunks tried in order *)
+let one (c : ctx) (t : Sexp.t) : (unit -> ctx) list =
+  match t with
+  | L [A "produce"; n] -> [fun () -> app "produce" c (Model.Produce (zarg n))]
+  | L [A "fetch"; c0; k] -> [fun () ->
+      let c = settle c in
+      match apply "fetch" c Model.Fetch with
+      | (c', [Model.OFetch (c1, k1)]) when iz c1 = int_of_string (atom c0) && iz k1 = int_of_string (atom k) -> c'
+      | (_, [Model.OFetch (c1, k1)]) ->
+        raise (Reject (Printf.sprintf "ListLogs(id > %s) returned %s logs; the model's handler is at %d and gets %d" (atom c0) (atom k) (iz c1) (iz k1)))
+      | _ -> raise (Reject "fetch: unexpected model output")]
+  | L (A "ok" :: ids) ->
+    let ids = ints ids in
+    let push () =
+      match apply "ok" c Model.PushOk with
+      | (c', [Model.OBatch b]) when List.map iz b = ids -> settle c'
+      | _ -> raise (Reject "ok: batch differs from the model's page") in
+    let stray c () =
+      match find_lacc c ids with
+      | Some k -> app "late ok" c (Model.LateAccept (nat_of_int k))
+      | None -> raise (Reject ("exporter acknowledged batch " ^ String.concat "," (List.map string_of_int ids) ^
+                               " which is neither the running handler's current page nor a page in flight from a halted handler")) in
+    if page_matches c ids then begin
+      let (_, _, _, _, _, m, _, _) = view c in
+      if m = Model.MIdle then [push]
+      else [push; (fun () -> stray (app "halt before a straggler page" c Model.Halt) ())]
+    end else [stray c]
+  | L (A "fail" :: ids) ->
+    let ids = ints ids in
+    [fun () ->
+      if page_matches c ids then app "fail" c Model.PushFail
+      else if find_lacc c ids <> None then c
+      else raise (Reject "exporter refused a batch the model's handler is not pushing")]
+  | L [A "store"; v] ->
+    let v = int_of_string (atom v) in
+    [fun () ->
+      let (_, _, _, h, pe, _, la, _) = view c in
+      let c' = (match h, pe with
+        | (Model.HIdle | Model.HPush _ | Model.HSend | Model.HDrain), Some x when iz x = v -> app "store" c Model.Persist
+        | _ -> (match Model.repl_find_late (zi v) la Model.O with
+            | Some k -> app "late store" c (Model.LatePersist k)
+            | None -> raise (Reject (Printf.sprintf "StorePipelineState(%d): no persister of a registered handler holds that value in the model (a store that outlived the operation which stopped its handler?)" v)))) in
+      settle c']
+  | L [A "stop-begin"] | L [A "restart-begin"] -> [fun () ->
+      let (_, _, _, h, _, _, _, _) = view c in
+      if h <> Model.HNone then app "stop request" c Model.StopReq else c]
+  | L [A "stop-end"; A "ok"] | L [A "restart-stopped"; A "ok"] -> [fun () ->
+      let (_, _, _, _, _, m, _, _) = view c in
+      match t, m with
+      | _, Model.MStopping -> complete "stop" c
+      | L [A "restart-stopped"; _], Model.MIdle -> c
+      | _ -> raise (Reject "StopPipeline succeeded but no handler was registered in the model")]
+  | L [A "stop-end"; A "notfound"] -> [fun () ->
+      let (_, _, _, h, _, _, _, _) = view c in
+      if h <> Model.HNone then raise (Reject "StopPipeline: not found, but the model has a registered handler") else c]
+  | L [A "reset-begin"] -> [fun () ->
+      let c = { c with cleared = false } in
+      let (_, _, _, h, _, _, _, _) = view c in
+      if h <> Model.HNone then app "reset request" c Model.ResetReq else c]
+  | L [A "clear"] -> [fun () ->
+      let c = { c with cleared = true } in
+      let (_, _, _, _, _, m, _, _) = view c in
+      if m = Model.MResetting then complete "reset" c else app "reset" c Model.ResetReq]
+  | L [A "reset-end"; A "ok"] -> [fun () ->
+      if not c.cleared then raise (Reject "ResetPipeline returned without clearing last_log_id") else c]
+  | L [A "start-begin"] -> [fun () -> { c with spawned = false }]
+  | L [A "read"; v] -> [fun () ->
+      let (_, _, st, h, _, _, _, _) = view c in
+      if st <> int_of_string (atom v) then
+        raise (Reject (Printf.sprintf "pipelines row read with last_log_id %s, the model has %d" (atom v) st));
+      if h = Model.HNone then begin
+        match apply "start" c Model.Start with
+        | (c', [Model.OResume r]) when iz r = st -> { c' with spawned = true }
+        | _ -> raise (Reject "start: unexpected model output")
+      end else c]
+  | L [A "start-end"; A "ok"] -> [fun () -> if not c.spawned then raise (Reject "StartPipeline succeeded on a started pipeline") else c]
+  | L [A "start-end"; A "already"] -> [fun () -> if c.spawned then raise (Reject "StartPipeline: already started, but the model had no handler") else c]
+  | L [A "restart-end"] -> [fun () ->
+      let (_, _, _, h, _, _, _, _) = view c in
+      if h = Model.HNone then raise (Reject "manager restarted without starting the enabled pipeline") else c]
+  | _ -> [fun () -> raise (Reject ("observable outside the model: " ^ to_string t))]
+
+let () = register "repl" (fun cse ->
+  match cse with
   | L [A "repl"; ps; _script; L trace] ->
-    let s = ref (Model.repl_init (zarg ps)) in
-    let view () =
-      let (((lg, cu), st), ((h, pe), m)), (la, lc) = Model.repl_view !s in
-      (iz lg, iz cu, iz st, h, pe, m, la, lc) in
-    let settle () = s := Model.repl_settle !s in
-    let apply what e =
-      let (s', outs) = Model.repl_step !s e in
-      if List.exists (function Model.ORefused -> true | _ -> false) outs then
-        raise (Reject (what ^ ": not enabled in the model state"));
-      s := s'; outs in
-    let spawned = ref false and cleared = ref false in
-    let page_matches ids = match view () with
-      | (_, cu, _, Model.HPush hi, _, _, _, _) -> ids = range (cu + 1) (iz hi)
-      | _ -> false in
-    let find_lacc ids =
-      let (_, _, _, _, _, _, _, lc) = view () in
-      let rec go k = function
-        | [] -> None
-        | (c0, hi) :: tl -> if ids = range (iz c0 + 1) (iz hi) then Some k else go (k + 1) tl in
-      go 0 lc in
-    let one t =
-      match t with
-      | L [A "produce"; n] -> ignore (apply "produce" (Model.Produce (zarg n)))
-      | L [A "fetch"; c0; k] ->
-        settle ();
-        (match apply "fetch" Model.Fetch with
-         | [Model.OFetch (c1, k1)] when iz c1 = int_of_string (atom c0) && iz k1 = int_of_string (atom k) -> ()
-         | [Model.OFetch (c1, k1)] ->
-           raise (Reject (Printf.sprintf "ListLogs(id > %s) returned %s logs; the model's handler is at %d and gets %d" (atom c0) (atom k) (iz c1) (iz k1)))
-         | _ -> raise (Reject "fetch: unexpected model output"))
-      | L (A "ok" :: ids) ->
-        let ids = ints ids in
-        if page_matches ids then begin
-          (match apply "ok" Model.PushOk with
-           | [Model.OBatch b] when List.map iz b = ids -> ()
-           | _ -> raise (Reject "ok: batch differs from the model's page"));
-          settle ()
-        end else (match find_lacc ids with
-          | Some k -> ignore (apply "late ok" (Model.LateAccept (nat_of_int k)))
-          | None -> raise (Reject ("exporter acknowledged batch " ^ String.concat "," (List.map string_of_int ids) ^
-                                   " which is neither the running handler's current page nor a page in flight from a halted handler")))
-      | L (A "fail" :: ids) ->
-        let ids = ints ids in
-        if page_matches ids then ignore (apply "fail" Model.PushFail)
-        else if find_lacc ids <> None then ()
-        else raise (Reject "exporter refused a batch the model's handler is not pushing")
-      | L [A "store"; v] ->
-        let v = int_of_string (atom v) in
-        let (_, _, _, h, pe, _, la, _) = view () in
-        (match h, pe with
-         | (Model.HIdle | Model.HPush _ | Model.HSend), Some x when iz x = v -> ignore (apply "store" Model.Persist)
-         | _ -> (match Model.repl_find_late (zi v) la Model.O with
-             | Some k -> ignore (apply "late store" (Model.LatePersist k))
-             | None -> raise (Reject (Printf.sprintf "StorePipelineState(%d): no persister holds that value in the model" v))));
-        settle ()
-      | L [A "stop-begin"] | L [A "restart-begin"] ->
-        let (_, _, _, h, _, _, _, _) = view () in
-        if h <> Model.HNone then ignore (apply "stop request" Model.StopReq)
-      | L [A "stop-end"; A "ok"] | L [A "restart-stopped"; A "ok"] ->
-        let (_, _, _, _, _, m, _, _) = view () in
-        (match t, m with
-         | _, Model.MStopping -> settle (); ignore (apply "halt" Model.Halt)
-         | L [A "restart-stopped"; _], Model.MIdle -> ()
-         | _ -> raise (Reject "StopPipeline succeeded but no handler was registered in the model"))
-      | L [A "stop-end"; A "notfound"] ->
-        let (_, _, _, h, _, _, _, _) = view () in
-        if h <> Model.HNone then raise (Reject "StopPipeline: not found, but the model has a registered handler")
-      | L [A "reset-begin"] -> cleared := false
-      | L [A "clear"] ->
-        cleared := true;
-        ignore (apply "reset" Model.ResetReq);
-        let (_, _, _, _, _, m, _, _) = view () in
-        if m = Model.MResetting then begin settle (); ignore (apply "halt (reset)" Model.Halt) end
-      | L [A "reset-end"; A "ok"] ->
-        if not !cleared then raise (Reject "ResetPipeline returned without clearing last_log_id")
-      | L [A "start-begin"] -> spawned := false
-      | L [A "read"; v] ->
-        let (_, _, st, h, _, _, _, _) = view () in
-        if st <> int_of_string (atom v) then
-          raise (Reject (Printf.sprintf "pipelines row read with last_log_id %s, the model has %d" (atom v) st));
-        if h = Model.HNone then begin
-          (match apply "start" Model.Start with
-           | [Model.OResume r] when iz r = st -> ()
-           | _ -> raise (Reject "start: unexpected model output"));
-          spawned := true
-        end
-      | L [A "start-end"; A "ok"] -> if not !spawned then raise (Reject "StartPipeline succeeded on a started pipeline")
-      | L [A "start-end"; A "already"] -> if !spawned then raise (Reject "StartPipeline: already started, but the model had no handler")
-      | L [A "restart-end"] ->
-        let (_, _, _, h, _, _, _, _) = view () in
-        if h = Model.HNone then raise (Reject "manager restarted without starting the enabled pipeline")
-      | _ -> raise (Reject ("observable outside the model: " ^ to_string t)) in
-    (try
-       List.iteri (fun i t ->
-           try one t with Reject m -> raise (Reject (Printf.sprintf "trace event %d %s: %s" i (to_string t) m))) trace;
-       settle ();
-       let (lg, cu, _, _, _, _, _, _) = view () in
+    let first_reject = ref None in
+    let rec go i c = function
+      | [] -> Some c
+      | t :: tl ->
+        let rec alts = function
+          | [] -> None
+          | f :: rest ->
+            (match (try Some (f ()) with Reject m ->
+               (if !first_reject = None || fst (Option.get !first_reject) < i then
+                  first_reject := Some (i, Printf.sprintf "trace event %d %s: %s" i (to_string t) m));
+               None) with
+             | Some c' -> (match go (i + 1) c' tl with Some r -> Some r | None -> alts rest)
+             | None -> alts rest) in
+        alts (one c t) in
+    (match go 0 { s = Model.repl_init (zarg ps); spawned = false; cleared = false } trace with
+     | Some c ->
+       let c = settle c in
+       let (lg, cu, _, _, _, _, _, _) = view c in
        L [A "accepted"; L [A "logs"; A (string_of_int lg)];
-          L [A (if Model.repl_started !s && cu = lg then "delivered-all" else "not-delivered")]]
-     with Reject m -> L [A "rejected"; S m])
+          L [A (if Model.repl_started c.s && cu = lg then "delivered-all" else "not-delivered")]]
+     | None -> L [A "rejected"; S (match !first_reject with Some (_, m) -> m | None -> "?")])
   | _ -> failwith "bad repl case")
